@@ -481,6 +481,7 @@ class MarkovChain:
                     (init_states >= self.n) + (init_states < -self.n)
                 )[0][0]
                 raise ValueError(msg_out_of_range.format(init=idx))
+            init_states = init_states % self.n  # Negative indices
             if num_reps is not None:
                 k *= num_reps
                 init_states = np.tile(init_states, num_reps)
@@ -495,7 +496,7 @@ class MarkovChain:
                 # Check init is in the state space
                 if init >= self.n or init < -self.n:
                     raise ValueError(msg_out_of_range.format(init=init))
-                init_states = np.ones(k, dtype=int) * init
+                init_states = np.ones(k, dtype=int) * (init % self.n)
             else:
                 raise ValueError(
                     'init must be int, array_like of ints, or None'
